@@ -121,8 +121,8 @@ pub fn run(args: &Args) -> Report {
         let dir = workdir().join(format!("c15_{}_{i}", args.seed()));
         let _ = std::fs::remove_dir_all(&dir);
         std::fs::create_dir_all(&dir).unwrap();
-        let store = match Store::new(&dir, vec![]) {
-            Ok(s) => Arc::new(s),
+        let mut store_slot: Option<Arc<Store>> = match Store::new(&dir, vec![]) {
+            Ok(s) => Some(Arc::new(s)),
             Err(e) => {
                 rep.inconclusive.push(format!("open failed: {e}"));
                 continue;
@@ -154,6 +154,46 @@ pub fn run(args: &Args) -> Report {
         };
         let mut stores_done = 0usize;
         'hist: for k in 0..nstores {
+            // In every third history the store object is replaced once by one opened on the same files after a writer
+            // "died in the middle of a copy": bytes of an unfinished event lie beyond the end marker (the state C13's
+            // mid-copy kills leave behind). References are taken afresh from the new store object; the property is
+            // about them, whatever the file went through before.
+            if k == 20 && i % 3 == 0 {
+                tracked.clear();
+                match Arc::try_unwrap(store_slot.take().unwrap()) {
+                    Ok(s) => {
+                        let _ = s.verif_close();
+                    }
+                    Err(_) => {
+                        rep.inconclusive.push("store still shared at the reopen step".into());
+                        break 'hist;
+                    }
+                }
+                let path = dir.join("event.map");
+                if let Ok(f) = std::fs::OpenOptions::new().read(true).write(true).open(&path) {
+                    use std::os::unix::fs::FileExt;
+                    let mut hdr = [0u8; 8];
+                    if f.read_exact_at(&mut hdr, 0).is_ok() {
+                        let end = u64::from_le_bytes(hdr);
+                        let flen = f.metadata().map(|m| m.len()).unwrap_or(0);
+                        let aligned = (end + 7) / 8 * 8;
+                        let n = 300u64.min(flen.saturating_sub(aligned));
+                        if n > 0 {
+                            let junk: Vec<u8> = (0..n).map(|j| 0xE1u8.wrapping_add(j as u8 % 7)).collect();
+                            let _ = f.write_all_at(&junk, aligned);
+                            rep.count("reopens_on_a_map_with_an_unfinished_copy_beyond_the_end_marker");
+                        }
+                    }
+                }
+                store_slot = match Store::new(&dir, vec![]) {
+                    Ok(s) => Some(Arc::new(s)),
+                    Err(e) => {
+                        rep.inconclusive.push(format!("reopen failed: {e}"));
+                        break 'hist;
+                    }
+                };
+            }
+            let store: &Arc<Store> = store_slot.as_ref().unwrap();
             let shape = k % 7;
             let author_n = (k % 3) as u8;
             let (kind, mut tags): (u16, Vec<Vec<String>>) = match shape {
@@ -285,8 +325,10 @@ pub fn run(args: &Args) -> Report {
             rep.sample(json!({"history": i, "stores": events.len(), "growths": growths, "references_tracked": tracked.len(), "threaded": threaded, "all_addresses_stable": ok}));
         }
         drop(tracked);
-        if let Ok(s) = Arc::try_unwrap(store) {
-            let _ = s.verif_close();
+        if let Some(st) = store_slot {
+            if let Ok(s) = Arc::try_unwrap(st) {
+                let _ = s.verif_close();
+            }
         }
         let _ = std::fs::remove_dir_all(&dir);
     }
